@@ -54,7 +54,13 @@ fn specs() -> Vec<BuilderSpec> {
 fn run_case(case: &Case, specs: &[BuilderSpec]) -> Outcome {
     let mut out = Outcome::new();
     match specs.iter().find(|s| s.name == case.builder) {
-        Some(spec) => (spec.run)(case, spec, &mut out),
+        Some(spec) => {
+            // every call into linfa is guarded inside judge(); this outer guard only catches a panic of
+            // the harness itself or of a builder constructor / setter
+            if let Err(p) = lvmc_core::guarded(|| (spec.run)(case, spec, &mut out)) {
+                out.viols.push(Violation::new(format!("{}.builder_construction.panic", spec.name), format!("constructing the builder / running the point panicked outside check and fit: {}", p), serde_json::to_value(case).unwrap()));
+            }
+        }
         None => out.viols.push(Violation::new("machinery.unknown_builder", format!("no builder {}", case.builder), serde_json::to_value(case).unwrap())),
     }
     out
